@@ -7,58 +7,83 @@ import Logrange.Model.Nesting
 # C13 — No request content can crash the server-side decoders and evaluators
 
 Property theorems only; every theorem in this namespace is an obligation of the C13 check (axioms audited).
-Models: `Logrange/Model/{Outcome,Wire,WireFields,EscapeJson,PosStr}.lean`; lemmas: `Logrange/Proofs/{Wire,EscapeJson,PosStr}.lean`.
+Models: `Logrange/Model/{Outcome,Wire,WireFields,EscapeJson,PosStr,Nesting}.lean`; lemmas: `Logrange/Proofs/{Wire,WireFields,EscapeJson,PosStr}.lean`.
 
-The full statement `C13_full` is **false** on the current tree; what is proved is the `_partial` form under explicit
-hypotheses that exclude the classes of the open findings, plus a kernel-evaluated counterexample per class:
+State after the repairs 72eac47 (F44) and dbbc1a7 (F13):
 
-* **F13** — `xbinary.UnmarshalBytes`: a length varint `≥ 2⁶³ − idx` makes `buf[idx:idx+ln]` panic
-  (`cex_varint_negative_length`); excluded by `Safe` / `lensSafe`.
-* **F44** — `field.NewFieldsFromKVString` tests `len(v) > 255` *before* `strconv.Unquote`; unquoting can make the
-  value longer (every invalid UTF-8 byte becomes the three bytes of U+FFFD), the length byte wraps and the stored
-  field list is malformed: a later `AsKVString` panics (`cex_unquote_expands`).
-* **F25** — recursion depth of the LQL parser is not bounded (`cex_nesting_exhausts_stack`).
+* the api/rpc decoders (`wpIterator.init/Get/Next`, `unmarshalQueryRequest`, `unmarshalLogEvent`, client-side
+  `unmarshalQueryResult`) are **total for all byte strings** (`decode_total`): their string reads go through the length
+  guard, regenerated as the fact `Generated.C13.rpcStringLengthGuard`;
+* what a Write stores is well-formed **unconditionally** (`fromKV_WF`, `stored_fields_WF`): the length is tested again after
+  `strconv.Unquote` (facts `fieldLenTestedAfterUnquote`, `fieldMaxLenAfterUnquote`);
+* `model.LogEvent.Unmarshal` (pkg/model) keeps the direct library call. It is applied only to records the server read from
+  its own journal (`pkg/model/iterator.go: LogEventIterator.Get`, `pkg/tmindex/cindex.go` rebuild), i.e. to bytes produced by
+  `LogEvent.Marshal` in `partition.iwrapper` — no request path hands client bytes to it. `record_decode_total_partial` and
+  `cex_record_varint` describe it: a remark (an on-disk corruption concern of C07), not a finding of C13;
+* the one open finding is **F25** (unbounded LQL nesting, `cex_nesting_exhausts_stack`), so `C13_full` stays false.
 -/
 namespace Logrange.Props.C13
 open Go Logrange Logrange.Wire Logrange.Outcome
 
-/-! ## decoders -/
+/-! ## request decoders (api/rpc) -/
 
-/-- the outcome of running everything the server does with the body of a Write request -/
-def writeBodyPanics (kv : Bytes → Option Bytes) (buf : Bytes) : Bool := (wpDecode kv buf).isPanic
+/-- the regenerated fact the decoder theorems rest on: api/rpc reads every length-prefixed string through the guard -/
+theorem rpc_guard_in_place : Generated.C13.rpcStringLengthGuard = true := by decide
 
-/-- **The full statement for the decoders (false: see `cex_varint_negative_length`).** -/
-def decode_total_full : Prop :=
-  ∀ (kv : Bytes → Option Bytes) (buf : Bytes),
-    (wpDecode kv buf).isPanic = false ∧ (unmarshalQueryRequest buf).isPanic = false ∧
-    (unmarshalLogEvent buf).isPanic = false ∧ (Event.unmarshal buf).isPanic = false ∧
-    (unmarshalQueryResult buf).isPanic = false
-
-/-- **Decoders are total on every byte string without a length varint of the F13 class**: whatever bytes arrive as
-the body of a Write or Query request (or as a stored record, or — client side — as a query result), if at no
-position a varint decodes to a value `≥ 2⁶³ − (its size)`, then `wpIterator.init`, every `Get`/`Next` of the
-drain, `unmarshalQueryRequest`, `unmarshalLogEvent`, `LogEvent.Unmarshal` and `unmarshalQueryResult` return a
-value or an error: no slice or index expression of the mirrored code fails its bounds check. For every
-field-text parser `kv`. -/
-theorem decode_total_partial (kv : Bytes → Option Bytes) (buf : Bytes) (h : Safe buf) :
+/-- **Request decoders are total, for ALL byte strings** and every field-text parser `kv`: whatever bytes arrive as the body
+of a Write or Query request (or — client side — as a query result), `wpIterator.init`, every `Get`/`Next` of the drain (any
+fuel), the whole Write decoding, `unmarshalQueryRequest`, `unmarshalLogEvent` and `unmarshalQueryResult` return a value or
+an error: no slice or index expression of the mirrored code fails its bounds check. The only hypothesis, `IsGoSlice buf`
+(`len(buf) < 2⁶³`), is no condition on the content: the length of a Go slice is an `int`. -/
+theorem decode_total (kv : Bytes → Option Bytes) (buf : Bytes) (h : IsGoSlice buf) :
     (wpInit kv buf).isPanic = false ∧
     (∀ it, wpInit kv buf = .ok it → ∀ fuel acc, (wpDrain kv fuel it acc).isPanic = false) ∧
     (wpDecode kv buf).isPanic = false ∧
     (unmarshalQueryRequest buf).isPanic = false ∧
     (unmarshalLogEvent buf).isPanic = false ∧
-    (Event.unmarshal buf).isPanic = false ∧
     (unmarshalQueryResult buf).isPanic = false := by
+  have hg := rpc_guard_in_place
   have hdrain : ∀ it, wpInit kv buf = .ok it → ∀ fuel acc, (wpDrain kv fuel it acc).isPanic = false := by
     intro it hit fuel acc
-    exact wpDrain_noPanic kv fuel it acc (wpInit_inv kv buf h it hit).1
-  refine ⟨wpInit_noPanic kv buf h, hdrain, ?_, (good_queryRequest buf h).1, (good_logEvent buf h).1,
-    (good_event buf h).1, (good_queryResult buf h).1⟩
+    exact wpDrain_noPanic hg kv fuel it acc (wpInit_inv kv buf h it hit).1
+  refine ⟨wpInit_noPanic hg kv buf h, hdrain, ?_, (good_queryRequest hg buf h).1, (good_logEvent hg buf h).1,
+    (good_queryResult hg buf h).1⟩
   unfold wpDecode
-  refine bind_isPanic_false (wpInit_noPanic kv buf h) ?_
+  refine bind_isPanic_false (wpInit_noPanic hg kv buf h) ?_
   intro it hit
   refine bind_isPanic_false (hdrain it hit _ _) ?_
   intro evs _
   rfl
+
+/-- **Never reads outside the request buffer**: the number of bytes a decoder reports as consumed, and the iterator's
+position, never exceed the buffer (every intermediate `buf[nn:]` is a checked slice in the model, so this also holds for
+every prefix of the decoding). -/
+theorem never_reads_outside (buf : Bytes) (h : IsGoSlice buf) :
+    (∀ n q, unmarshalQueryRequest buf = .ok (n, q) → n ≤ buf.length) ∧
+    (∀ n e, unmarshalLogEvent buf = .ok (n, e) → n ≤ buf.length) ∧
+    (∀ n r, unmarshalQueryResult buf = .ok (n, r) → n ≤ buf.length) ∧
+    (∀ kv it, wpInit kv buf = .ok it → it.pos ≤ buf.length) := by
+  have hg := rpc_guard_in_place
+  refine ⟨(good_queryRequest hg buf h).2, (good_logEvent hg buf h).2, (good_queryResult hg buf h).2, ?_⟩
+  intro kv it hit
+  have := wpInit_inv kv buf h it hit
+  rw [← this.2]; exact this.1.2
+
+/-- the former F13 witness: a Write body whose first field (the tags) announces the length 2⁶⁴−1 -/
+def f13Witness : Bytes := [0xff, 0xff, 0xff, 0xff, 0xff, 0xff, 0xff, 0xff, 0xff, 0x01]
+
+set_option maxRecDepth 100000 in
+/-- non-vacuity / regression for the repaired finding F13 (commit dbbc1a7): the witness is an ordinary Go slice, the guarded
+decoder answers it with an error — and the decoder without the guard (the code before the commit) panics on it -/
+theorem f13_witness_rejected :
+    IsGoSlice f13Witness ∧ rpcStringG true f13Witness = .err ∧
+    rpcStringG false f13Witness = .panic "slice bounds out of range" := by
+  have h1 : IsGoSlice f13Witness := by unfold IsGoSlice; decide
+  have h2 : rpcStringG true f13Witness = .err := by decide
+  have h3 : rpcStringG false f13Witness = .panic "slice bounds out of range" := by decide
+  exact ⟨h1, h2, h3⟩
+
+/-! ## stored records (pkg/model) — a remark -/
 
 /-- `lensSafe` (what the driver evaluates) implies `Safe` -/
 theorem lensSafe_sound (buf : Bytes) (h : lensSafe buf = true) : Safe buf := by
@@ -73,55 +98,26 @@ theorem lensSafe_sound (buf : Bytes) (h : lensSafe buf = true) : Safe buf := by
     rw [hnil] at hu
     simp [unmarshalUint, uvarintGo] at hu
 
-/-- the same with the decidable hypothesis, in contrapositive form: **every panic of the Write decoding is of the
-F13 class** (some position of the body holds a varint `≥ 2⁶³ − its size`). -/
-theorem decode_panic_only_F13 (kv : Bytes → Option Bytes) (buf : Bytes) (h : (wpDecode kv buf).isPanic = true) :
-    lensSafe buf = false := by
-  cases hl : lensSafe buf with
-  | false => rfl
-  | true =>
-    have := (decode_total_partial kv buf (lensSafe_sound buf hl)).2.2.1
-    rw [this] at h; cases h
+/-- `model.LogEvent.Unmarshal` still calls `xbinary.UnmarshalBytes` directly: it is total on every record **without a
+length varint of the class `≥ 2⁶³ − size`** (`Safe`, decidable form `lensSafe`), and reports at most the record's length.
+It only ever sees records the server marshalled itself (see the file header). -/
+theorem record_decode_total_partial (buf : Bytes) (h : Safe buf) :
+    (Event.unmarshal buf).isPanic = false ∧ ∀ n e, Event.unmarshal buf = .ok (n, e) → n ≤ buf.length :=
+  good_event buf h
 
-/-- **Never reads outside the request buffer**: on the same buffers, the number of bytes a decoder reports as
-consumed never exceeds the buffer (every intermediate `buf[nn:]` is a checked slice in the model, so this also
-holds for every prefix of the decoding). -/
-theorem never_reads_outside (buf : Bytes) (h : Safe buf) :
-    (∀ n q, unmarshalQueryRequest buf = .ok (n, q) → n ≤ buf.length) ∧
-    (∀ n e, unmarshalLogEvent buf = .ok (n, e) → n ≤ buf.length) ∧
-    (∀ n e, Event.unmarshal buf = .ok (n, e) → n ≤ buf.length) ∧
-    (∀ kv it, wpInit kv buf = .ok it → it.pos ≤ buf.length) := by
-  refine ⟨(good_queryRequest buf h).2, (good_logEvent buf h).2, (good_event buf h).2, ?_⟩
-  intro kv it hit
-  have := wpInit_inv kv buf h it hit
-  rw [← this.2]; exact this.1.2
-
-/-- non-vacuity: a real Write body (tags `a=b`, no write-level fields, one event `ts=1, msg="m", fields="c=d"`) meets
-the hypothesis of `decode_total_partial` (that the model decodes it to exactly that event is part of the harness' corpus) -/
-def validBody : Bytes := [3, 97, 61, 98, 0, 0, 0, 0, 1, 0, 0, 0, 0, 0, 0, 0, 1, 1, 109, 0, 3, 99, 61, 100]
+/-- non-vacuity: a real stored record (`ts = 1`, message `m`, fields `01 'c' 01 'd'`) meets the hypothesis -/
+def validRecord : Bytes := [0x21, 0, 0, 0, 0, 0, 0, 0, 1, 1, 109, 4, 1, 99, 1, 100]
 set_option maxRecDepth 100000 in
-example : Safe validBody := lensSafe_sound _ (by decide)
-set_option maxRecDepth 100000 in
-/-- … and so does the same body cut in the middle of the event (a decode error inside the batch ends the batch) -/
-example : Safe (validBody.take 19) := lensSafe_sound _ (by decide)
+example : Safe validRecord := lensSafe_sound _ (by decide)
 
-/-- the F13 witness: a Write body whose first field (the tags) announces the length 2⁶⁴−1 -/
-def f13Witness : Bytes := [0xff, 0xff, 0xff, 0xff, 0xff, 0xff, 0xff, 0xff, 0xff, 0x01]
-
-/-- **Counterexample (open finding F13)**: the ten-byte Write body `ff×9 01` makes `wpIterator.init` panic —
-`ln = int(2⁶⁴−1) = −1`, `ln+idx = 9 ≤ len(buf)`, `buf[10:9]`. Evaluated by the kernel. -/
-theorem cex_varint_negative_length (kv : Bytes → Option Bytes) :
-    wpInit kv f13Witness = .panic "slice bounds out of range" ∧ lensSafe f13Witness = false := by
+/-- … and the excluded class is real for this decoder (kernel-evaluated): a record whose message length is 2⁶⁴−1. Not
+reachable from request content; it would take a corrupted chunk file. -/
+theorem cex_record_varint :
+    (Event.unmarshal ([0x20, 0, 0, 0, 0, 0, 0, 0, 1] ++ f13Witness)).isPanic = true ∧
+    lensSafe ([0x20, 0, 0, 0, 0, 0, 0, 0, 1] ++ f13Witness) = false := by
   constructor
   · rfl
   · decide
-
-/-- so the full statement is false -/
-theorem decode_total_full_false : ¬ decode_total_full := by
-  intro h
-  have h1 := (h (fun _ => some []) f13Witness).1
-  have h2 : (wpDecode (fun _ => some []) f13Witness).isPanic = true := by rfl
-  rw [h1] at h2; cases h2
 
 /-! ## stored field lists -/
 
@@ -163,57 +159,45 @@ example : WireFields.value [1, 97, 1, 98] [97] = .ok [98] := by decide
 value's length byte is missing). Not reachable from the API as long as only well-formed lists are stored — a remark. -/
 theorem cex_value_oob : (WireFields.value [1, 97] [97]).isPanic = true := by decide
 
-/-- **What a Write stores is readable — partial.** If the field-text parser `kv` only produces well-formed lists, every
-event the server-side iterator hands to the partition has a well-formed field list (write-level fields
-concatenated with the event's own), hence `value_total` applies to everything stored. -/
-theorem stored_fields_WF_partial (kv : Bytes → Option Bytes) (hkv : ∀ s f, kv s = some f → WireFields.WF f)
-    (buf : Bytes) (tags : Bytes) (evs : List Wire.Event) (h : wpDecode kv buf = .ok (tags, evs)) :
+/-- `NewFieldsFromKVString`'s builder loop only produces well-formed lists — **for every** result of `SplitString`, every
+`TrimSpaces` that does not lengthen, every `Unquote`: the length of an unquoted item is tested again (commit 72eac47; the
+regenerated facts `fieldLenTestedAfterUnquote = true`, `fieldMaxLenAfterUnquote = 255`, `fieldMaxLen = 255`). -/
+theorem fromKV_WF (split : Bytes → Option (List Bytes)) (trim : Bytes → Bytes) (unq : Bytes → Option Bytes)
+    (htrim : ∀ v, (trim v).length ≤ v.length) (s f : Bytes)
+    (h : WireFields.fromKV split trim unq s = some f) : WireFields.WF f :=
+  WireFields.fromKV_WF split trim unq htrim (by decide) (Or.inl ⟨by decide, by decide⟩) s f h
+
+/-- **What a Write stores is readable**: every event the server-side iterator hands to the partition has a well-formed
+field list (write-level fields concatenated with the event's own) — for all request bytes and all behaviours of the
+split / trim / unquote functions (trim must not lengthen); hence `value_total` applies to everything stored. -/
+theorem stored_fields_WF (split : Bytes → Option (List Bytes)) (trim : Bytes → Bytes) (unq : Bytes → Option Bytes)
+    (htrim : ∀ v, (trim v).length ≤ v.length)
+    (buf : Bytes) (tags : Bytes) (evs : List Wire.Event)
+    (h : wpDecode (WireFields.fromKV split trim unq) buf = .ok (tags, evs)) :
     ∀ e ∈ evs, WireFields.WF e.fields := by
+  have hkv : ∀ s f, WireFields.fromKV split trim unq s = some f → WireFields.WF f :=
+    fun s f hs => fromKV_WF split trim unq htrim s f hs
   unfold wpDecode at h
   obtain ⟨it, hit, h⟩ := bind_eq_ok h
   obtain ⟨evs', hd, h⟩ := bind_eq_ok h
   cases h
-  exact WireFields.wpDrain_WF kv hkv _ it [] evs (WireFields.wpInit_FInv kv hkv buf it hit) (by simp) hd
-
-/-- … and `NewFieldsFromKVString`'s builder loop only produces well-formed lists **provided unquoting does not make an
-item longer than 255 bytes** (or the code tests the length again after unquoting — it does not: the regenerated fact
-`fieldLenTestedAfterUnquote` is `false`). For every result of `SplitString`, every `TrimSpaces` that does not
-lengthen, every `Unquote`. -/
-theorem fromKV_WF_partial (trim : Bytes → Bytes) (unq : Bytes → Option Bytes)
-    (htrim : ∀ v, (trim v).length ≤ v.length)
-    (hunq : ∀ v w, unq v = some w → w.length ≤ 255)
-    (parts : List Bytes) (f : Bytes) (h : WireFields.build trim unq parts = some f) : WireFields.WF f :=
-  WireFields.build_WF trim unq htrim (by decide) (Or.inr hunq) parts f h
-
-/-- non-vacuity of `fromKV_WF_partial`: an unquoter that strips the quotes of items up to 257 bytes meets the hypothesis,
-and the builder produces `k="v"` ↦ `01 'k' 01 'v'` -/
-example : ∀ v w, (fun (v : Bytes) => if v.length ≤ 257 then some ((v.drop 1).dropLast) else none) v = some w → w.length ≤ 255 := by
-  intro v w h
-  simp only [] at h
-  split at h
-  · cases h; simp; omega
-  · cases h
-example : WireFields.build id (fun v => if v.length ≤ 257 then some ((v.drop 1).dropLast) else none) [[107], [34, 118, 34]]
-    = some [1, 107, 1, 118] := by decide
+  exact WireFields.wpDrain_WF _ hkv _ it [] evs (WireFields.wpInit_FInv _ hkv buf it hit) (by simp) hd
 
 /-- what `strconv.Unquote` does to a double-quoted string without backslashes or inner quotes: the quotes go, every
 byte ≥ 0x80 that is not part of a valid sequence becomes U+FFFD (`EF BF BD`); enough for the witness (only 0xff bytes) -/
 def unqWitness (v : Bytes) : Option Bytes :=
   some ((v.drop 1).dropLast.flatMap fun b => if b = 0xff then [0xEF, 0xBF, 0xBD] else [b])
 
-/-- the F44 witness: `f="<86 × 0xff>"` — 88 bytes quoted (passes `len(v) > 255`), 258 bytes unquoted -/
+/-- the former F44 witness: `f="<86 × 0xff>"` — 88 bytes quoted (passes the first `len(v) > 255`), 258 bytes unquoted -/
 def f44Parts : List Bytes := [[102], [34] ++ List.replicate 86 0xff ++ [34]]
 
 set_option maxRecDepth 100000 in
-/-- **Counterexample (open finding F44)**: the builder accepts the witness, writes the length byte `258 mod 256 = 2`,
-and the resulting list is malformed: `field.Check` rejects it and the walk of `AsKVString` fails a bounds check. -/
-theorem cex_unquote_expands :
-    ∃ f, WireFields.build id unqWitness f44Parts = some f ∧ WireFields.check f = false ∧
-      (WireFields.items f).isPanic = true := by
-  refine ⟨[1, 102, 2] ++ (List.replicate 86 [0xEF, 0xBF, 0xBD]).flatten, ?_, ?_, ?_⟩
-  · decide
-  · decide
-  · decide
+/-- non-vacuity / regression for the repaired finding F44: the builder now refuses the witness (the event's own field text
+is then dropped by `field.Parse`, nothing malformed is stored), while a quoted value that stays within 255 bytes is built -/
+theorem f44_witness_rejected :
+    WireFields.build id unqWitness f44Parts = none ∧
+    WireFields.build id unqWitness [[107], [34, 118, 0xff, 34]] = some [1, 107, 4, 118, 0xEF, 0xBF, 0xBD] := by
+  constructor <;> decide
 
 /-! ## recursion depth (finding F25) -/
 
@@ -271,17 +255,22 @@ theorem cex_escapeJson_fffd_before_fix (fuel i start : Nat) (e : Bytes) (hi : i 
 
 /-! ## the full statement -/
 
-/-- **C13 at full strength** (kept as a definition: it is false on the current tree through F13, F44 and F25): every
-request body is answered with a result or an error by the decoders; every position string by the position parser;
-the escaper returns; whatever a Write stores is readable; and no LQL text exhausts the stack. -/
+/-- **C13 at full strength** (kept as a definition: it is false on the current tree through F25 only): every request body is
+answered with a result or an error by the decoders; every position string by the position parser; the escaper returns;
+whatever a Write stores is readable; and no LQL text exhausts the stack. -/
 def C13_full : Prop :=
-  decode_total_full ∧
+  (∀ (kv : Bytes → Option Bytes) (buf : Bytes), IsGoSlice buf →
+    (wpDecode kv buf).isPanic = false ∧ (unmarshalQueryRequest buf).isPanic = false) ∧
   (∀ s, (PosStr.applyStatePos s).isPanic = false) ∧
   (∀ s, (EscapeJson.escapeJson Generated.C13.escapeJsonSkipsValidRunes s).isOk = true) ∧
-  (∀ (trim : Bytes → Bytes) (unq : Bytes → Option Bytes) parts f, (∀ v, (trim v).length ≤ v.length) →
-      WireFields.build trim unq parts = some f → WireFields.WF f) ∧
+  (∀ split (trim : Bytes → Bytes) unq s f, (∀ v, (trim v).length ≤ v.length) →
+      WireFields.fromKV split trim unq s = some f → WireFields.WF f) ∧
   (∃ budget, ∀ s, (Nesting.parse budget s).isPanic = false)
 
-theorem C13_full_false : ¬ C13_full := fun h => decode_total_full_false h.1
+theorem C13_full_false : ¬ C13_full := by
+  intro h
+  obtain ⟨budget, hb⟩ := h.2.2.2.2
+  have := cex_nesting_exhausts_stack budget
+  rw [hb] at this; cases this
 
 end Logrange.Props.C13
